@@ -23,7 +23,8 @@ RULE += (
     "object raised by several children and caught again and again by one running body). Every fourth run under "
     "KEEP_DEPENDENCIES; at every step and flush all pending batches are queried and must stay unchanged; "
     "get_active_task() inside code the scheduler runs between task steps must be None or a task whose step is "
-    "on the stack."
+    "on the stack. 'overlap' programs (scoped overrides of different variables entered A, G and left A, G - "
+    "the one that is left is not the most recently entered - with suspensions and reads in between)."
 )
 ASSUMPTIONS = [
     "task bodies are side-effect free apart from contexts, so 'the sequential result' is well defined",
